@@ -1088,3 +1088,17 @@ package geometry
 //@   requires Depth: 0 <= depth && depth <= 16
 //@   modifies qNode.items, qNode.split, qNode.quads
 //@   decreases 2*(16 - depth) + ite(n.split, 0, 1)
+
+// qNode.compress: the chosen item width is wide enough for the count and for every item (so appendNum never truncates).
+// Only these obligations are generated; establishing QWF for the produced bytes is left to the bounded index suite.
+//@ func qNode.compress
+//@   props C04 C01
+//@   arith order
+//@   only pre.call2 pre.call3 inv.loop0 inv.loop1 dec.loop0 dec.loop1
+//@   requires n != nil && len(n.items) <= 4294967295
+//@   loop 0 invariant Pos: 0 <= i && i <= len(n.items)
+//@   loop 0 invariant Wide: (ibytes == 1 || ibytes == 2 || ibytes == 4) && numBytesOf(len(n.items)) <= ibytes && (forall k int :: 0 <= k && k < i ==> numBytesOf(n.items[k]) <= ibytes)
+//@   loop 0 decreases len(n.items) - i
+//@   loop 1 invariant Pos: 0 <= i && i <= len(n.items)
+//@   loop 1 invariant Wide: (ibytes == 1 || ibytes == 2 || ibytes == 4) && (forall k int :: 0 <= k && k < len(n.items) ==> numBytesOf(n.items[k]) <= ibytes)
+//@   loop 1 decreases len(n.items) - i
